@@ -249,6 +249,10 @@ func RunWorker(d Driver, tier string, seed uint64, w, nw int, maxRuns uint64, de
 				continue
 			}
 			reported[sig] = true
+			if len(sum.Violations) >= 4 {
+				sum.Stats["violations_not_minimised_over_cap"]++
+				continue
+			}
 			base := c
 			if (len(v.Faults) > 0 && len(c.Faults) == 0) || (len(v.Schedule) > 0 && len(c.Schedule) == 0) {
 				base = c.Clone()
